@@ -19,7 +19,7 @@ pub fn alpha() -> Alpha {
         streams: true,
         stream_holds: true,
         drop_ctx: true,
-        after_drop_kinds: vec![Kind::Pub0, Kind::Pub1, Kind::Sub],
+        after_drop_kinds: vec![Kind::Pub0, Kind::Pub1, Kind::Pub2, Kind::Sub, Kind::Unsub, Kind::Ping, Kind::Disc],
         writer_stall: true,
         ..Default::default()
     }
